@@ -66,9 +66,9 @@ PROPS = {
         'verus': ['u_pwsel'],
         'kani': {
             'quick': [{'set': 'c02', 'jobs': 8, 'timeout': 1200,
-                       'harnesses': hs('c02_direct_n', 'piecewise', [1, 2, 3, 4, 5], 'segments N = {n} (loops unwound)', PW_EVAL)}],
+                       'harnesses': hs('c02_direct_n', 'piecewise', [1, 2, 3, 4, 5, 6, 9, 12], 'segments N = {n} (loops unwound)', PW_EVAL)}],
             'thorough': [{'set': 'c02', 'jobs': 8, 'timeout': 3000,
-                          'harnesses': hs('c02_direct_n', 'piecewise', [1, 2, 3, 4, 5, 6], 'segments N = {n} (loops unwound)', PW_EVAL)}],
+                          'harnesses': hs('c02_direct_n', 'piecewise', [1, 2, 3, 4, 5, 6, 9, 12, 17], 'segments N = {n} (loops unwound)', PW_EVAL)}],
         },
         'probe': False,
         'level': 'proof',
@@ -78,7 +78,7 @@ PROPS = {
         'assumptions': [FM_BITS, FM_ORD, PARAM,
                         'trusted contract (assume_specification) for <slice::Iter as Iterator>::position; vstd contracts for slice::iter, slice::last, Option::unwrap, Vec indexing',
                         'extraction binds the receiver temporary: `v.iter().position(c)` is verified as `{ let mut it = v.iter(); it.position(c) }` with the closure annotated by its ensures',
-                        'Kani cross-check bounded: number of segments N <= 5 (quick) / 6 (thorough)'],
+                        'Kani cross-check bounded: number of segments N in 1..6, 9, 12 (quick), plus 17 (thorough)'],
     },
     'C03': {
         'verus': [],
@@ -417,7 +417,8 @@ PROPS['C16'] = {
     'verus': ['u_pwsel', 'u_merge'],
     'kani': {
         'quick': [kset('c16',
-                       hs('c02_direct_n', 'piecewise', [1, 2, 3, 4], 'segments N = {n}; every f64 argument', PW_EVAL) +
+                       hs('c02_direct_n', 'piecewise', [1, 2, 3, 4, 9], 'segments N = {n}; every f64 argument', PW_EVAL) +
+                       [H(f'c14_translate_polyn_{n}', 'poly', f'length {n} (no panic, empty included)', False, ['src/poly.rs: impl Translate for PolyN :: translate']) for n in (0, 1, 3)] +
                        hs('c16_step_anyf64_n', 'piecewise', [1, 2, 3, 4], 'segments N = {n}; any state satisfying the invariant, every f64 query (NaN included)', EV_FNS[1:]) +
                        [H('c16_hist_anyf64_n3_k3', 'piecewise', 'N = 3, 3 queries from a fresh evaluator, every f64 (NaN at any position)', False, EV_FNS),
                         H('c16_evaluate_v_anyf64_n3_k3', 'piecewise', 'N = 3, 3 arguments, every f64', False, ['src/piecewise.rs: Piecewise::evaluate_v']),
